@@ -915,9 +915,39 @@ def resample_cases(rng, tier):
     return [cs, cs2]
 
 
+def shape_cases(rng, tier):
+    """Calling conventions by SHAPE: every factory called with np.zeros(shape) (all points at the first node)
+    on a d-dimensional grid -> result shape, scalar, or ValueError.  Exhaustive over small shapes."""
+    from odl.discr.discr_utils import nearest_interpolator, linear_interpolator, per_axis_interpolator
+    cs = C.CaseSet('shapes', ['C15.Syntax', 'C15.Model', 'C15.Call', 'C15.Corr'], 'hcheck', 'hcase')
+    sizes = [0, 1, 2, 3, 4] if tier == 'quick' else [0, 1, 2, 3, 4, 5, 7]
+    for d in (1, 2, 3):
+        shapes = [()] + [(a,) for a in sizes] + [(a, b) for a in sizes for b in sizes]
+        shapes += [(a, b, c) for a in (1, 2, 3) for b in (1, 2) for c in (1, 2)]
+        cv = [np.array([0.0, 1.0, 2.0])] * d
+        f = np.arange(3.0 ** d).reshape((3,) * d)
+        for k, shape in enumerate(shapes):
+            mk = [lambda: nearest_interpolator(f, cv), lambda: linear_interpolator(f, cv),
+                  lambda: per_axis_interpolator(f, cv, ['nearest', 'linear', 'nearest'][:d])][(k + d) % 3]
+            with warnings.catch_warnings():
+                warnings.simplefilter('ignore')
+                try:
+                    r = mk()(np.zeros(shape))
+                    out = '(Some %s%%nat)' % C.nats(np.shape(r))
+                    if np.shape(r) == () and isinstance(r, np.ndarray):
+                        out = 'None'          # a 0-d array instead of a scalar would be a protocol error
+                except ValueError:
+                    out = 'None'
+                except Exception as e:       # any other error class: make the case fail
+                    out = '(Some [99; 99]%nat)'
+            cs.add('{| h_d := %d; h_shape := %s%%nat; h_out := %s |}' % (d, C.nats(shape), out),
+                   {'family': 'shapes', 'd': d, 'shape': list(shape), 'impl': out}, ('shape', d, shape))
+    return cs
+
+
 def correspondence(rng, tier):
     return ([interp_cases(rng, tier), sampling_cases(rng, tier), tensor_sampling_cases(rng, tier),
-             history_cases(rng, tier)] + resample_cases(rng, tier))
+             history_cases(rng, tier), shape_cases(rng, tier)] + resample_cases(rng, tier))
 
 
 # ------------------------------------------------------------------- probes
